@@ -15,8 +15,9 @@ Model of `coloquinte::TransportationProblem` and of the solver
 * `while` loops: `sendSource` uses `remaining` itself as fuel (every round sends ≥ 1 or an assert
   fails); the two walks along `sinkParent_` use `nbSinks + 1` (a longer walk is a cycle, on which
   the C++ would not terminate); `updateTree`'s `while (true)` uses `treeFuel` (see there; proved sufficient).
-* `costsFromIntegers` (float costs → fixed point) is computed with `Float` (IEEE double), the very
-  operations of the C++; the theorems are about the resulting integer costs.
+* `costsFromIntegers` (float costs → fixed point) is in `Model/TranspFloat.lean`: the very operations of
+  the C++ over exact rationals with explicit binary64 rounding (`costsFromFloats`); the solver theorems are
+  about the resulting integer costs, `C13.costsFromFloats_bound` shows that they satisfy the cost bound.
 -/
 namespace ColoVerif.Transp
 
@@ -107,20 +108,6 @@ def toAssignmentOf (alloc : Mat) (nSinks nSources : Nat) : List Nat :=
 def toAssignment : List Nat := toAssignmentOf p.allocations p.nbSinks p.nbSources
 
 end Problem
-
-/-! ### `costsFromIntegers` -/
-
-/-- `(double) 1.0e-8f` -/
-def floatEps : Float := Float.ofBits 0x3E45798EE0000000
-
-def floatToInt (x : Float) : Int :=
-  if x < 0 then - ((0 - x).toUInt64.toNat : Int) else (x.toUInt64.toNat : Int)
-
-/-- Costs arrive as the doubles that equal the `float` inputs exactly. -/
-def costsFromFloats (fc : List (List Float)) : Mat :=
-  let maxVal := fc.foldl (fun m r => r.foldl (fun m d => if d < m then m else d) m) floatEps
-  let cf := (((2147483647.0 : Float) / maxVal) / 4.0) / (Float.ofNat fc.length)
-  fc.map (fun r => r.map (fun c => floatToInt (Float.round (c * cf))))
 
 /-! ### `std::priority_queue<CostElt>` as libstdc++ implements it -/
 
